@@ -3,7 +3,7 @@
    N, positive, comparison, nat stay extracted datatypes.  No Extract Constant. *)
 From Coq Require Import Extraction ExtrOcamlBasic.
 From Coq Require Import List NArith.
-From JS Require Import Model.Base Model.Shape Model.Sem Model.Subset Model.Merger Model.Infer.
+From JS Require Import Model.Base Model.Shape Model.Sem Model.Subset Model.Merger Model.Infer Model.Api Model.Repr.
 Extraction Language OCaml.
 Set Extraction AccessOpaque.
 Extraction "Model.ml"
@@ -12,4 +12,6 @@ Extraction "Model.ml"
   mem nodup_keys
   is_subset similar
   merger merge no_null_array
-  infer_text infer_value array_text array_value conflict_free key_conflict.
+  infer_text infer_value array_text array_value conflict_free key_conflict
+  from_sources_tree is_superset_tree is_superset_checked_tree
+  ser de ser_text display ident_keys.
